@@ -928,7 +928,9 @@ impl Parser {
                 self.advance();
             }
             while self.next_matches(&TokenEnum::Comma).is_some() || clause_ended_with_brace {
-                if self.peek(&TokenEnum::RightBrace) {
+                // also stop at the end of the input: nothing is consumed there, so the loop
+                // would never end after a clause that ended with `}`
+                if self.peek(&TokenEnum::RightBrace) || self.tokens.peek().is_none() {
                     break;
                 }
                 if let Ok((clause, ends_with_brace)) = self.parse_match_clause() {
